@@ -55,3 +55,59 @@ Definition transmit (size : nat) (rq : tx_request) : res (bytes * option Z) :=
   | TxToken da sa => if Nat.ltb size 3 then Panic SiteIndex else Ok (encode_token da sa, None)
   | TxShortConf => if Nat.ltb size 1 then Panic SiteIndex else Ok (encode_sc, None)
   end.
+
+(* ------------------------------------------------------------------------------------------
+   The same helpers over an abstract PHY (trait ProfibusPhy), as the code is written:
+   every loop iteration of receive_all_telegrams is one `receive_data(now, closure)` call of
+   the PHY implementation.  A PHY implementation is given by
+     phy_view p   : what `receive_data` shows to the closure (may panic, e.g. SimulatorPhy
+                    panics while it is transmitting),
+     phy_drop p n : the PHY after the closure asked to drop n bytes.
+   Both PHY implementations under test (SimulatorPhy, the harness PHY) assert
+   `drop <= pending.len()`; that assertion is the SiteAssert below. *)
+Record phy_ops (P : Type) : Type := mkPhyOps {
+  phy_view : P -> res bytes;
+  phy_drop : P -> nat -> P }.
+Arguments mkPhyOps {P} _ _.
+Arguments phy_view {P} _ _.
+Arguments phy_drop {P} _ _ _.
+
+(* receive_data(now, f): f returns (drop, result) *)
+Definition receive_data_phy {P R} (ops : phy_ops P) (p : P) (f : bytes -> res (nat * R)) : res (P * R) :=
+  let* buf := phy_view ops p in
+  let* (n, r) := f buf in
+  if Nat.ltb (length buf) n then Panic SiteAssert else Ok (phy_drop ops p n, r).
+
+Definition receive_telegram_phy {P R} (ops : phy_ops P) (f : telegram -> R) (p : P) : res (P * option R) :=
+  receive_data_phy ops p (fun buffer =>
+    let* d := decode buffer in
+    match d with
+    | Reject => Ok (length buffer, None)
+    | Accept t n => Ok (n, Some (f t))
+    | NeedMore => Ok (0%nat, None)
+    end).
+
+Fixpoint receive_all_phy {P S R} (ops : phy_ops P) (f : S -> telegram -> bool -> res (S * R))
+         (fuel : nat) (s : S) (p : P) : res (S * P * option R) :=
+  match fuel with
+  | O => OutOfFuel
+  | S fuel' =>
+      let* (p', x) := receive_data_phy ops p (fun buffer =>
+        let* d := decode buffer in
+        match d with
+        | Reject => Ok (length buffer, (true, s, None))
+        | Accept t n =>
+            let is_last := Nat.eqb n (length buffer) in
+            let* (s', r) := f s t is_last in
+            Ok (n, (is_last, s', Some r))
+        | NeedMore => Ok (0%nat, (true, s, None))
+        end) in
+      let '(is_last, s', r) := x in
+      if is_last : bool then Ok (s', p', r) else receive_all_phy ops f fuel' s' p'
+  end.
+
+Definition pending_bytes_phy {P} (ops : phy_ops P) (p : P) : res (P * nat) :=
+  receive_data_phy ops p (fun buf => Ok (0%nat, length buf)).
+
+(* The harness PHY: the receive buffer is a byte vector, nothing else. *)
+Definition buf_phy : phy_ops bytes := mkPhyOps (fun b => Ok b) (fun b n => skipn n b).
